@@ -13,7 +13,7 @@ From Soy Require Import Proofs.MsgIdProofs.
 From Soy Require Import Model.Bytes Model.Outcome Model.Num Model.Values Model.Ast Model.MsgId
   Model.Escape Model.Interp Model.MsgParts Spec.MsgCat Proofs.MsgPartsProofs Proofs.InterpRelProofs Proofs.InterpPosProofs Proofs.MsgCatProofs
   Proofs.MsgPluralProofs Model.PoFile Proofs.PoFileProofs Model.JsGen Proofs.MsgJsProofs
-  Model.PoEntry Proofs.PoEntryProofs Model.PoBundle Proofs.PoBundleProofs Model.MiniJS Proofs.InterpGuard Proofs.MiniJSProofs Proofs.MiniJSPrint Proofs.MiniJSCtl Proofs.MiniJSGo Proofs.MiniJSStmt Proofs.MiniJSGen Proofs.MiniJSSim Proofs.MsgWalkEq Proofs.MsgThreeSided.
+  Model.PoEntry Proofs.PoEntryProofs Model.PoBundle Proofs.PoBundleProofs Model.PoHeader Proofs.PoHeaderProofs Proofs.PoCatalogueRender Model.MiniJS Proofs.InterpGuard Proofs.MiniJSProofs Proofs.MiniJSPrint Proofs.MiniJSCtl Proofs.MiniJSGo Proofs.MiniJSStmt Proofs.MiniJSGen Proofs.MiniJSSim Proofs.MsgWalkEq Proofs.MsgWalkEqCalls Proofs.MsgThreeSided.
 Open Scope N_scope.
 
 (* ------------------------------------------------------------------ *)
@@ -573,6 +573,149 @@ Theorem C11_po_parse_uint_dec : forall id, id < 18446744073709551616 -> pb_parse
 Proof. exact parse_uint_dec. Qed.
 Print Assumptions C11_po_parse_uint_dec.
 
+(* (9) THE HEADER ENTRY AND THE PLURAL RULE (Model/PoHeader.v: net/textproto's ReadMIMEHeader, the tail of po.Parse,
+   po/plural.go, the head of pomsg.newBundle -- hand model of library code, tied on every run by c11_po_hparse /
+   c11_po_hload / c11_po_hmime / c11_po_hwrite).
+
+   textproto.ReadMIMEHeader on the msgstr File.WriteTo builds for a header -- "key: value\n" per key, for canonical
+   keys (RFC 7230 token bytes, first letter and letters after '-' upper case, the rest lower case) and values of valid
+   header bytes without a blank at either end -- gives the keys and values back, in order *)
+Theorem C11_po_read_mime_header : forall h, poh_hdr_ok h -> poh_read_mime_header (poh_header_text h) = Ok h.
+Proof. exact read_mime_header_text. Qed.
+Print Assumptions C11_po_read_mime_header.
+
+(* the loop of po.Parse on the bytes File.WriteTo writes for such a header and the extractor's entries (any
+   descriptions, any msgstr): the header entry comes back first, as a message with an empty msgid and the header text
+   as its one msgstr, then every entry *)
+Theorem C11_po_parse_header_file : forall is_print h (es : list xentry), h <> [] -> poh_hdr_ok h -> Forall xentry_ok es ->
+  pe_parse (poh_write_file is_print h (map xentry_msg es)) = Ok (poh_header_msg h :: map xentry_read es).
+Proof. exact parse_header_file. Qed.
+Print Assumptions C11_po_parse_header_file.
+
+(* THE WHOLE CATALOGUE, HEADER INCLUDED -> pomsg's bundle AND ITS PLURAL RULE.  po.Parse (its loop, ReadMIMEHeader on
+   the header entry, which is taken out of the messages, the Plural-Forms / Language lookup) followed by
+   pomsg.newBundle under ANY locale name: the outcome is decided by the header alone ([poh_pluralize h]: the selector
+   its Plural-Forms names -- an unknown value is an error --, else the rule of its Language), then by the locale's name
+   ([poh_choose]), and the bundle is [new_bundle] on the (id, plural variable, msgstr) triples of the entries -- the
+   abstract catalogue of the rendering theorems; the second component is the index of the selector that
+   Bundle.PluralCase applies ([poh_select]; [poh_plural_index c] is the [plural_index] of those theorems) *)
+Theorem C11_po_load_header_file : forall is_print (h : poh_header) (es : list xentry) (locale : bstr),
+  h <> [] -> poh_hdr_ok h -> Forall xentry_ok es -> Forall xentry_id64 es ->
+  poh_load locale (poh_write_file is_print h (map xentry_msg es))
+  = (sel <- poh_pluralize h ;;
+     match poh_choose sel locale with
+     | None => Err poh_e_forms
+     | Some c => bd <- new_bundle (map xentry_po es) ;; Ok (bd, c)
+     end).
+Proof. exact load_header_file. Qed.
+Print Assumptions C11_po_load_header_file.
+
+(* the header decides: a Plural-Forms value the library knows (spaces do not matter) gives that rule under every
+   locale name, an unknown one refuses the catalogue under every locale name *)
+Theorem C11_po_header_decides : forall is_print h es locale c,
+  h <> [] -> poh_hdr_ok h -> Forall xentry_ok es -> Forall xentry_id64 es ->
+  poh_lookup_selector (poh_get poh_k_plural_forms h) = Some c ->
+  poh_load locale (poh_write_file is_print h (map xentry_msg es)) = (bd <- new_bundle (map xentry_po es) ;; Ok (bd, c)).
+Proof. exact load_header_plural_forms. Qed.
+Print Assumptions C11_po_header_decides.
+
+Theorem C11_po_header_unknown_forms : forall is_print h es locale,
+  h <> [] -> poh_hdr_ok h -> Forall xentry_ok es -> Forall xentry_id64 es ->
+  poh_get poh_k_plural_forms h <> [] -> poh_lookup_selector (poh_get poh_k_plural_forms h) = None ->
+  poh_load locale (poh_write_file is_print h (map xentry_msg es)) = Err poh_e_selector.
+Proof. exact load_header_unknown_forms. Qed.
+Print Assumptions C11_po_header_unknown_forms.
+
+(* no Plural-Forms: the rule of the header's Language, else of the locale's name, else "Plural-Forms must be specified" *)
+Theorem C11_po_header_no_forms : forall is_print h es locale,
+  h <> [] -> poh_hdr_ok h -> Forall xentry_ok es -> Forall xentry_id64 es ->
+  poh_get poh_k_plural_forms h = [] ->
+  poh_load locale (poh_write_file is_print h (map xentry_msg es))
+  = match poh_choose (poh_selector_for_language (poh_get poh_k_language h)) locale with
+    | None => Err poh_e_forms
+    | Some c => bd <- new_bundle (map xentry_po es) ;; Ok (bd, c)
+    end.
+Proof. exact load_header_no_forms. Qed.
+Print Assumptions C11_po_header_no_forms.
+
+(* a catalogue without header entry (the first entry has a msgid): the rule of the locale's name *)
+Theorem C11_po_load_no_header : forall is_print (es : list xentry) (locale : bstr),
+  Forall xentry_ok es -> Forall xentry_id64 es ->
+  match es with [] => True | (_, _, _, f) :: _ => pf_id f <> [] end ->
+  poh_load locale (pe_write_file is_print (map xentry_msg es))
+  = match poh_selector_for_language locale with
+    | None => Err poh_e_forms
+    | Some c => bd <- new_bundle (map xentry_po es) ;; Ok (bd, c)
+    end.
+Proof. exact load_no_header. Qed.
+Print Assumptions C11_po_load_no_header.
+
+(* THE CHAIN CLOSED for a flat message: from the BYTES of a catalogue -- a header that names a known plural rule, the
+   extractor's entries with ids 1 .. 2^64-1 and any msgstr, the LAST translated entry under the message's id ([po_find]:
+   what newBundle's map keeps) being a singular entry with msgstr_of tr -- through po.Parse, ReadMIMEHeader, the
+   Plural-Forms lookup and pomsg.newBundle under any locale name, to what soyhtml's evalMsg does with the loaded bundle
+   and the loaded selector, for EVERY walker: it runs the translation's items (text segments where the translator put
+   them, every slot by walking the first placeholder of the message that carries its name) *)
+Theorem C11_catalogue_renders_translation : forall is_print (h : poh_header) (es : list xentry) (locale : bstr) (c : N)
+    (w : node -> M value) (mp id : N) (body : list node) (tr : list titem) (e : po_entry),
+  h <> [] -> poh_hdr_ok h -> Forall xentry_ok es -> Forall xentry_id64 es -> Forall xentry_id_nz es ->
+  poh_lookup_selector (poh_get poh_k_plural_forms h) = Some c ->
+  id <> 0 -> po_find (map xentry_po es) id None = Some e -> po_var e = [] -> po_strs e = [msgstr_of tr] ->
+  forallb flat_node body = true -> items_named body tr -> parts_clean (map item_part tr) ->
+  exists bd, poh_load locale (poh_write_file is_print h (map xentry_msg es)) = Ok (bd, c)
+    /\ eval_msg (poh_plural_index c) bd w mp id body = run_items w (map (resolve body) tr).
+Proof. exact catalogue_renders_translation. Qed.
+Print Assumptions C11_catalogue_renders_translation.
+
+(* every selector answers below the number of forms its Plural-Forms declares, for every Go int (negative ones too) *)
+Theorem C11_po_select_in_range : forall code n, (0 <= poh_select code n < poh_nplurals code)%Z.
+Proof. exact select_in_range. Qed.
+Print Assumptions C11_po_select_in_range.
+
+(* non-vacuity: a header as Poedit writes it (three keys, Russian rule), loaded under the name "en": the Russian
+   selector, index 7, which answers 0 1 2 for 21, 22, 25 and 2 for 11 *)
+Definition ex_header : poh_header :=
+  [(b "Content-Type", b "text/plain; charset=UTF-8"); (b "Language", b "ru");
+   (b "Plural-Forms", b "nplurals=3; plural=(n%10==1 && n%100!=11 ? 0 : n%10>=2 && n%10<=4 && (n%100<10 || n%100>=20) ? 1 : 2);")].
+Example ex_po_header :
+  ex_header <> [] /\ poh_hdr_ok ex_header
+  /\ poh_lookup_selector (poh_get poh_k_plural_forms ex_header) = Some 7
+  /\ map (poh_plural_index 7) [1; 21; 22; 25; 11; 111; 0; -1]%Z = [0; 0; 1; 2; 2; 2; 2; 2]%nat
+  /\ poh_load (b "en") (poh_write_file (fun _ => true) ex_header []) = Ok ([], 7)
+  /\ poh_load (b "xx") (poh_write_file (fun _ => true) [(b "Language", b "pt-BR")] []) = Ok ([], 2)
+  /\ poh_load (b "xx") (poh_write_file (fun _ => true) [(b "X-Generator", b "none")] []) = Err poh_e_forms
+  /\ poh_load (b "cs_CZ") (poh_write_file (fun _ => true) [(b "X-Generator", b "none")] []) = Ok ([], 8).
+Proof.
+  split; [discriminate|]. split.
+  { repeat constructor; vm_compute; try reflexivity; try discriminate;
+      repeat (constructor; [reflexivity|]); try constructor. }
+  repeat split; vm_compute; reflexivity.
+Qed.
+
+(* non-vacuity of the chain: a catalogue of two entries under one id (the later, translated one wins) for the message
+   "A {XXX} B{X}" of ex_call_slots below, with an English header, loaded under the name "zz" *)
+Definition ex_cat_entries : list xentry :=
+  [(b "first try", 9, None, {| pf_ctxt := []; pf_id := b "A {XXX} B{X}"; pf_id_plural := []; pf_str := [b "old"] |});
+   (b "a call and a print", 9, None, {| pf_ctxt := []; pf_id := b "A {XXX} B{X}"; pf_id_plural := []; pf_str := [b "{X}{XXX} -- "] |});
+   (b "untranslated", 10, None, {| pf_ctxt := []; pf_id := b "other"; pf_id_plural := []; pf_str := [] |})].
+Definition ex_cat_header : poh_header :=
+  [(b "Language", b "en"); (b "Plural-Forms", b "nplurals=2; plural=(n != 1);")].
+Example ex_catalogue_chain :
+  poh_hdr_ok ex_cat_header /\ Forall xentry_ok ex_cat_entries /\ Forall xentry_id64 ex_cat_entries /\ Forall xentry_id_nz ex_cat_entries
+  /\ poh_lookup_selector (poh_get poh_k_plural_forms ex_cat_header) = Some 1
+  /\ po_find (map xentry_po ex_cat_entries) 9 None = Some {| po_id := 9; po_var := []; po_strs := [b "{X}{XXX} -- "] |}
+  /\ (match poh_load (b "zz") (poh_write_file (fun _ => true) ex_cat_header (map xentry_msg ex_cat_entries)) with
+      | Ok (bd, c) => (bundle_message bd 9, bundle_message bd 10, c)
+      | _ => (None, None, 0)
+      end) = (Some (new_message [] [b "{X}{XXX} -- "]), None, 1).
+Proof.
+  split. { repeat constructor; vm_compute; try reflexivity; try discriminate; repeat (constructor; [reflexivity|]); try constructor. }
+  split. { repeat constructor; vm_compute; repeat constructor; lia. }
+  split. { repeat constructor; vm_compute; reflexivity. }
+  split. { repeat constructor; discriminate. }
+  repeat split; vm_compute; reflexivity.
+Qed.
+
 (* before the repair (the description written as ONE "#. " value): a description of two lines puts its second
    line inside the entry, and the message Parse reads has no reference and no msgid *)
 Theorem C11_po_pinned_entry_refuted :
@@ -600,6 +743,59 @@ Theorem C11_walk_b_is_walk : forall cf plural_index bd fuel n, msgfree n = true 
   forall st, walk_b cf plural_index bd fuel n st = walk cf fuel n st.
 Proof. exact walk_b_is_walk. Qed.
 Print Assumptions C11_walk_b_is_walk.
+
+(* ... and on code without {msg} that CALLS templates, when no template of the registry contains a {msg} either
+   ([msgfree_c] = no message node in the tree, calls allowed; [reg_msgfree] = every template of the registry is such) *)
+Theorem C11_walk_b_is_walk_calls : forall cf, reg_msgfree cf -> forall plural_index bd fuel n, msgfree_c n = true ->
+  forall st, walk_b cf plural_index bd fuel n st = walk cf fuel n st.
+Proof. exact walk_b_is_walk_calls. Qed.
+Print Assumptions C11_walk_b_is_walk_calls.
+
+(* CALL SLOTS, Go side: a flat message with the catalogue entry tr whose slots resolve to message-free code -- prints,
+   html tags and {call}s, over a registry without {msg} -- is rendered by soyhtml's evalMsg (walker with the bundle)
+   exactly as the PLAIN walker of Model/Interp.v runs the translation's items: text segments where the translation puts
+   them, each slot by walking the first placeholder of the message that carries its name (for a {call}: data, params,
+   the callee's template, any depth of further calls) -- same result, same state, every fuel.  So every theorem about
+   [walk] (C02's call semantics, C03's escaping, C12's writes) speaks about the slots of a translated message.
+   The JavaScript side of call slots waits for C04's call stage (see the claim). *)
+Theorem C11_translation_call_slots : forall cf, reg_msgfree cf -> forall plural_index bd fuel mp id body tr,
+  forallb flat_node body = true -> items_named body tr -> parts_clean (map item_part tr) ->
+  bundle_message bd id = Some (new_message [] [msgstr_of tr]) ->
+  slots_msgfree (map (resolve body) tr) ->
+  forall st, eval_msg plural_index bd (walk_b cf plural_index bd fuel) mp id body st
+             = run_items (walk cf fuel) (map (resolve body) tr) st.
+Proof. exact translation_plain_walker. Qed.
+Print Assumptions C11_translation_call_slots.
+
+(* non-vacuity: "A {XXX} B{X}" where XXX is {call ns.greet data="all"/} and ns.greet is "Hi {$x}!", translated to
+   "{X}{XXX} -- " with x = 7: the output is "7Hi 7! -- " *)
+Definition exc_greet : template :=
+  {| t_name := b "ns.greet";
+     t_node := NTemplate 0 (b "ns.greet") (NList 0 [NRawText 1 (b "Hi "); NPrint 2 (NDataRef 2 (b "x") []) []; NRawText 3 (b "!")]) 0 false;
+     t_ns_name := b "ns"; t_ns_autoescape := 0; t_params := [(b "x", false)]; t_file := b "f.soy" |}.
+Definition exc_cf : cfg :=
+  {| c_reg := {| r_templates := [exc_greet]; r_sources := []; r_files := [] |}; c_ij := None; c_oblig := []; c_msgs := None |}.
+Definition exc_call : node := NCall 2 (b "ns.greet") true None [].
+Definition exc_px : node := NPrint 4 (NDataRef 4 (b "x") []) [].
+Definition exc_body : list node :=
+  [NRawText 1 (b "A "); NMsgPlaceholder 2 (b "XXX") exc_call; NRawText 3 (b " B"); NMsgPlaceholder 4 (b "X") exc_px].
+Definition exc_tr : list titem := [TPh 4 (b "X") exc_px; TPh 2 (b "XXX") exc_call; TText (b " -- ")].
+Definition exc_bd : bundle := [(9, new_message [] [msgstr_of exc_tr])].
+Definition exc_st : mstate := init_state (sc_enter (new_scope 1 [(b "x", VInt 7)])) 0 (b "ns.main") None None 100.
+Example ex_call_slots :
+  reg_msgfree exc_cf /\ forallb flat_node exc_body = true /\ msgstr_of exc_tr = b "{X}{XXX} -- "
+  /\ bundle_message exc_bd 9 = Some (new_message [] [msgstr_of exc_tr])
+  /\ slots_msgfree (map (resolve exc_body) exc_tr)
+  /\ items_named exc_body exc_tr /\ parts_clean (map item_part exc_tr)
+  /\ (let '(r, st) := eval_msg plural_neq1 exc_bd (walk_b exc_cf plural_neq1 exc_bd 10) 0 9 exc_body exc_st in
+      (r, concat_b (rev (out st)))) = (Ok tt, b "7Hi 7! -- ").
+Proof.
+  split; [intros callee [<-|[]]; reflexivity|]. split; [reflexivity|]. split; [vm_compute; reflexivity|].
+  split; [reflexivity|]. split; [repeat constructor|].
+  split.
+  { intros p n bd H. cbn in H. destruct H as [H|[H|[H|[]]]]; try discriminate; injection H as <- <- <-; cbn; eauto 8. }
+  split; [vm_compute; repeat split; discriminate|]. vm_compute. reflexivity.
+Qed.
 
 (* A flat message with the catalogue entry tr whose slots all resolve to core prints ({print e|ds} over C04's
    expression subset) or html tags of the message ([ss] = the items as statements of C04's subset: SRaw t for a
@@ -634,6 +830,29 @@ Theorem C11_three_sided_translation_partial : forall cf plural_index bd o lv den
     /\ sim cf (cc_nocalls denv) st' je' jst' (old ++ text) /\ lvok lv (j_scope jst').
 Proof. exact three_sided_translation. Qed.
 Print Assumptions C11_three_sided_translation_partial.
+
+(* THE STATEMENT WITH CALL SLOTS (stated, NOT proved; C04's call stage -- C04_gen_correct_partial_call, callctx_ok --
+   reached main at the end of wave 3).  With one more constructor of [item_stmt],
+       is_call p n name d ps : item_stmt (TPh p n (snode (SCall name d ps))) (SCall name d ps),
+   any call context [cc] in place of [cc_nocalls denv], and the fuel measured as C04's call stage measures it:
+
+     forall cf plural_index bd o lv cc, callctx_ok cf o' cc (o' = o without its catalogue, as C04 states its contexts) ->
+     forall fuel mp id body tr msgs ss,
+       forallb flat_node body = true -> items_named body tr -> parts_clean (map item_part tr) ->
+       bundle_message bd id = Some (new_message [] [msgstr_of tr]) ->
+       o_msgs o = Some msgs -> assoc_n id msgs = Some (jparts_of_cmsg (new_message [] [msgstr_of tr])) ->
+       Forall2 item_stmt (map (resolve body) tr) ss -> reg_msgfree cf ->
+       forall st je jst old text,
+       c_oblig cf = [] -> Forall (fun s => (cc_fuel cc + sdepth s < fuel)%nat) ss -> Forall (fun s => swf lv s = true) ss ->
+       sim cf cc st je jst old -> lvok lv (j_scope jst) ->
+       stmts_text' cf cc (mode st) (sc_lookup (ctx st)) ss = Some text ->        (sout over cc_denv cc / cc_callee cc)
+       exists st' ws je' jst', [the six conclusions above with cc for cc_nocalls denv].
+
+   What is proved of it: the Go conjunct for every slot kind, calls included, without C04's subset restrictions
+   (C11_translation_call_slots: evalMsg with the bundle = the plain walker over the resolved items; reg_msgfree is what
+   lets walk_b be replaced by walk under a call), and all three conjuncts for prints and tags (the theorem above).
+   Missing: Proofs/MsgThreeSided.v's stmt_step_strong for SCall from C04's sim_step (the generator's scope and counter
+   after a call with content parameters), and stmts_text / stmts_js over a context with calls. *)
 
 (* non-vacuity: "Hello {X}, {A_B}!{BREAK}" translated to "{BREAK}{A_B} -- {X}: hola" with x = 4 in the generated variable x_3
    and a.b = "1<2" in opt_data, autoescape on: the items resolve to core prints, the subset semantics gives the
